@@ -780,7 +780,30 @@ static std::string compileAndRun(const std::map<FileName, FileContent> &files, c
   return o;
 }
 
+// a debugged run of a machine built from the (possibly shared) Program object `p`:
+// breakpoints on every second available line (parity = variant), resumed with execute() until done
+static std::string runDebugged(Program &p, int variant, long cap) {
+  VM v(p);
+  int i = 0;
+  for (auto &e : p.potential_breaks) {
+    if ((i++ % 2) == (variant % 2)) v.setBreakPoint(e.first.file, e.first.line, true);
+  }
+  long stops = 0, steps = 0;
+  std::string tr;
+  while (!v.isDone() && steps < cap) {
+    bool r = v.executeSingle();
+    steps++;
+    if (r && !v.isDone()) {
+      stops++;
+      if (stops <= 50) tr += bpStr(v.getCurrentBreak()) + ";";
+    }
+  }
+  return "stops=" + std::to_string(stops) + " tr=" + tr + " steps=" + std::to_string(steps) + " acts=" + actsStr(v);
+}
+
 struct MTArg {
+  std::vector<CodegenResult> *shared;
+  std::vector<std::string> *expectedDbg;
   int t, rounds;
   std::vector<std::pair<std::string, std::map<FileName, FileContent>>> *sets;
   std::vector<std::string> *expected;
@@ -793,6 +816,12 @@ static void *mtWorker(void *p) {
     size_t k = (a->t + j) % a->sets->size();
     std::string r = compileAndRun((*a->sets)[k].second, (*a->sets)[k].first, 20000);
     if (r != (*a->expected)[k]) a->bad++;
+    // machines built by several threads from one shared compilation result
+    CodegenResult &cr = (*a->shared)[k];
+    if (cr.generated_correctly) {
+      int variant = (a->t + j) % 2;
+      if (runDebugged(cr.code, variant, 20000) != (*a->expectedDbg)[2 * k + variant]) a->bad++;
+    }
   }
   return NULL;
 }
@@ -811,13 +840,30 @@ static void doMT(std::stringstream &ss) {
   int seqbad = 0;
   for (size_t i = 0; i < sets.size(); i++)
     if (compileAndRun(sets[i].second, sets[i].first, 20000) != expected[i]) seqbad++;
+  std::vector<CodegenResult> shared;
+  std::vector<std::string> expectedDbg;
+  for (auto &s : sets) {
+    shared.push_back(compile(s.second, s.first));
+    for (int variant = 0; variant < 2; variant++) {
+      Program priv = shared.back().code;   // expected behaviour: a machine on a private copy
+      expectedDbg.push_back(shared.back().generated_correctly ? runDebugged(priv, variant, 20000) : std::string("-"));
+    }
+  }
+  // sequentially: two machines alive at once on the same Program object, different breakpoints
+  for (size_t i = 0; i < shared.size(); i++) {
+    if (!shared[i].generated_correctly) continue;
+    VM other(shared[i].code);
+    for (auto &e : shared[i].code.potential_breaks) other.setBreakPoint(e.first.file, e.first.line, true);
+    for (int variant = 0; variant < 2; variant++)
+      if (runDebugged(shared[i].code, variant, 20000) != expectedDbg[2 * i + variant]) seqbad++;
+  }
   std::vector<pthread_t> th(nthreads);
   std::vector<MTArg> args(nthreads);
   pthread_attr_t attr;
   pthread_attr_init(&attr);
   pthread_attr_setstacksize(&attr, (size_t)256 << 20);
   for (int t = 0; t < nthreads; t++) {
-    args[t] = {t, rounds, &sets, &expected, 0};
+    args[t] = {&shared, &expectedDbg, t, rounds, &sets, &expected, 0};
     pthread_create(&th[t], &attr, mtWorker, &args[t]);
   }
   int bad = 0;
@@ -832,11 +878,37 @@ static void doMT(std::stringstream &ss) {
 static void doVMS(std::stringstream &ss) {
   auto f = fields(ss);
   int n = std::stoi(f["n"]);
-  std::vector<VM> vms;
+  // programs live in stable storage and the machines are built from those objects, the way a front end
+  // builds several machines from one compilation result; share=1: instances with the same program text are
+  // built from the very same Program object
+  bool share = f.count("share") && f["share"] == "1";
+  std::vector<Program> progs;
+  progs.reserve(n);
+  std::vector<std::string> keys;
+  std::vector<int> progOf;
   for (int i = 0; i < n; i++) {
     std::map<std::string, std::string> g;
-    for (auto k : {"code", "maps", "pb", "li"}) g[k] = f[std::string(k) + std::to_string(i)];
-    vms.push_back(VM(parseProgram(g)));
+    std::string key;
+    for (auto k : {"code", "maps", "pb", "li"}) {
+      g[k] = f[std::string(k) + std::to_string(i)];
+      key += g[k] + " ";
+    }
+    int found = -1;
+    if (share)
+      for (size_t j = 0; j < keys.size(); j++)
+        if (keys[j] == key) found = (int)j;
+    if (found < 0) {
+      progs.push_back(parseProgram(g));
+      keys.push_back(key);
+      found = (int)progs.size() - 1;
+    }
+    progOf.push_back(found);
+  }
+  std::vector<VM> vms;
+  vms.reserve(n);
+  for (int i = 0; i < n; i++) {
+    Program &pr = progs[progOf[i]];
+    vms.push_back(VM(pr));
   }
   std::string out;
   bool first = true;
@@ -857,7 +929,11 @@ static void doVMS(std::stringstream &ss) {
       v.clearBreakpoints();
     else if (op == "r")
       v.reset();
-    else if (op == "t1")
+    else if (op == "v") {
+      for (auto &a : v.getActivations()) (void)a.getActivationVariables();
+      (void)v.getCurrentBreak();
+      (void)v.getEnabledBreakPoints();
+    } else if (op == "t1")
       v.setSteppingMode(true);
     else if (op == "t0")
       v.setSteppingMode(false);
@@ -867,7 +943,7 @@ static void doVMS(std::stringstream &ss) {
     }
     if (!first) out += "|";
     first = false;
-    out += vmDump(v, ret, false);
+    out += vmDump(v, ret, op == "v");
   }
   if (first) out = "-";
   std::cout << "VMS " << out << std::endl;
